@@ -189,16 +189,15 @@ def resized (r : Rect) (s : Sz) (a : Anchor) : Option Rect := do
 /-- `Rectangle::offset`: `offset as u32 * 2` resp. `(-offset) as u32 * 2` are `u32` products,
 `-offset` is an `i32` negation. -/
 def offset (r : Rect) (o : Int) : Option Rect := do
-  let size ←
-    if o ≥ 0 then do
-      let d ← chkU32 (i32AsU32 o * 2)
-      pure (r.size.satAdd (Sz.newEqual d))
-    else do
-      let m ← chkI32 (-o)
-      let d ← chkU32 (i32AsU32 m * 2)
-      pure (r.size.satSub (Sz.newEqual d))
-  let c ← center r
-  withCenter c size
+  if o ≥ 0 then do
+    let tl ← ptSub r.tl ⟨o, o⟩
+    let d ← chkU32 (i32AsU32 o * 2)
+    pure ⟨tl, r.size.satAdd (Sz.newEqual d)⟩
+  else do
+    let m ← chkI32 (-o)
+    let d ← chkU32 (i32AsU32 m * 2)
+    let c ← center r
+    withCenter c (r.size.satSub (Sz.newEqual d))
 
 /-- `Rectangle::rows` / `columns` use saturating operations only: they cannot panic. -/
 def rows (r : Rect) : Option (List Int) := pure r.rows
